@@ -360,6 +360,13 @@ def exec_history(ops, factory):
         async def __aexit__(self, *a):
             log.append(("exit", "failed-enter"))
 
+    class FailEnterSync:
+        def __enter__(self):
+            raise E("enter")
+
+        def __exit__(self, *a):
+            log.append(("exit", "failed-enter"))
+
     async def main():
         stacks = [factory()]
         nid = 0
@@ -381,7 +388,10 @@ def exec_history(ops, factory):
                 elif op[0] == "enter_fail":
                     k = op[1] if op[1] < len(stacks) else 0
                     try:
-                        await stacks[k].enter("acm", FailEnter())
+                        if nid % 2:
+                            await stacks[k].enter("scm", FailEnterSync())
+                        else:
+                            await stacks[k].enter("acm", FailEnter())
                     except E as x:
                         log.append(("enter-raised", x.n))
                 elif op[0] == "aclose":
